@@ -1,5 +1,7 @@
 import SockModel.Model.AsyncQLemmas
 import SockModel.Spec.C02
+import SockModel.Model.GenQueueWorld
+import SockModel.Generated.Loops
 /-!
 # C02  Async send pipeline: FIFO, whole buffers, futures tell the truth
 
@@ -375,3 +377,81 @@ example : (specRun {} [.send 1 [1, 2] (some ⟨"p", []⟩),
     .step false [.sent 2 2] false false none (some ⟨"v", []⟩)]).toOption.isNone := by decide
 
 end SockModel.AsyncQ
+
+/-! ## Source-derived tie, stage 4 (DESIGN.md §0.7.3): `SocketAsyncImpl::DriverSend`
+
+Generated on every run from the clang AST of src/socket_async_impl.cpp (Generated/Loops.lean) over the abstract queue /
+promise / buffer / socket interface `Gen.QueueWorld` (`auto &&[promise, buffer(, addr)] = q.front()`; `try` /
+`catch(std::runtime_error const &)` as `M.tryCatch`), run on the model's own queue state (Model/GenQueueWorld.lean) and
+tied to the model's writable action for EVERY queue, every future state and every answer of the OS.  Every generated
+`if` is decided by `omega` from the case hypotheses (whatever its polarity / arithmetic form), so the early-return
+and `q.empty()` forms of harmless_H07 are re-proved by the same script. -/
+namespace SockModel.Props.C02
+open SockModel SockModel.AsyncQ SockModel.GenWorld
+
+def afterWritable (r : Gen.Res Bool × QSt) : St :=
+  match r.1 with
+  | .ok b => { r.2.s with drvDisarm := b }
+  | _ => r.2.s
+
+theorem isA_sys_rt : Gen.ExnClass.isA .system_error .runtime_error = true := rfl
+theorem isA_rt_rt : Gen.ExnClass.isA .runtime_error .runtime_error = true := rfl
+theorem isA_logic_rt : Gen.ExnClass.isA .logic_error .runtime_error = false := rfl
+
+theorem len_succ_eq_one {α : Type} (l : List α) : (((l.length + 1 : Nat) : Int) = 1) = (l.isEmpty = true) := by
+  cases l <;> simp <;> omega
+
+theorem dec_len {α : Type} (l : List α) : decide (((l.length : Int) + 1) = 1) = l.isEmpty := by
+  cases l <;> simp <;> omega
+
+/-- run the generated code on the model's queue: unfold, rewrite the world calls, decide every generated `if` by
+`omega` from the case hypotheses in the context (whatever its polarity and arithmetic form) -/
+macro "tie_q_simp" : tactic => `(tactic| (
+  simp (disch := omega) only [Gen.DriverSend, Gen.M.bind, Gen.M.pure, Gen.M.throw, Gen.M.tryCatch, isA_sys_rt, isA_rt_rt,
+    isA_logic_rt, q_qSize, q_qEmpty, q_qPop, q_bufferSize, q_bufferErase, q_promiseSetValue, q_promiseSetException,
+    q_sockSendSome, q_sockDriverPending, List.length_cons, List.length_nil, List.isEmpty_cons, List.isEmpty_nil,
+    if_pos, if_neg, if_true, if_false, ite_true, ite_false, Bool.true_eq_false, Bool.false_eq_true, Int.toNat_natCast,
+    upd_same]))
+
+theorem tie_DriverSend (fuel : Nat) (s : St) (a : Ans) (hd : s.drvDisarm = false) :
+    afterWritable (Gen.DriverSend asyncQWorld fuel ⟨s, some a⟩)
+      = match s.q with
+        | [] => { s with drvDisarm := true }
+        | e :: rest => driverSend s e rest a := by
+  obtain ⟨q, armed, registered, destroyed, drvDisarm, wire, fut, returned, pendingArm, enqd, done⟩ := s
+  simp only at hd
+  subst hd
+  cases q with
+  | nil =>
+    tie_q_simp
+    simp [afterWritable]
+  | cons e rest =>
+    cases a with
+    | fail =>
+      tie_q_simp
+      simp [afterWritable, driverSend, len_succ_eq_one, dec_len]
+    | accept k =>
+      by_cases h1 : e.rest.length ≤ k
+      · have hm : min k e.rest.length = e.rest.length := Nat.min_eq_right h1
+        tie_q_simp
+        simp [afterWritable, driverSend, len_succ_eq_one, dec_len, h1, hm]
+      · by_cases h2 : k = 0
+        · tie_q_simp
+          simp [afterWritable, driverSend, h1, h2]
+          intro he; simp [he] at h1
+        · have hm : min k e.rest.length = k := Nat.min_eq_left (by omega)
+          tie_q_simp
+          simp [afterWritable, driverSend, h1, h2, hm]
+
+/-- **tie of the enqueue side** `SocketAsyncImpl::Send` → `DoSend<SendQ>` → `DoSendEnqueue<SendQ>`: with `sendQMtx` free
+at the call, the generated code takes the lock, reads `q.empty()`, performs the model's `enq` action, releases the lock
+and then - iff the queue was empty - performs the model's `arm` action of the same thread; it ends with the lock free -/
+theorem tie_AsyncSend (fuel : Nat) (s : St) (t id : Nat) (bytes : Bytes) :
+    Gen.AsyncSend enqWorld fuel ⟨s, t, id, bytes, false⟩ =
+      (.ok (), ⟨if s.q.isEmpty then step (step s (.enq t id bytes)) (.arm t) else step s (.enq t id bytes), t, id, bytes, false⟩) := by
+  simp (disch := omega) only [Gen.AsyncSend, Gen.DoSend_Tcp, Gen.DoSendEnqueue_Tcp, Gen.M.bind, Gen.M.pure, e_qEmpty, e_qEmplace,
+    e_lock, e_unlock, e_driverLock, e_driverAsyncWantSend, if_true, if_false, ite_true, ite_false, Bool.false_eq_true]
+  cases h : s.q.isEmpty <;>
+    simp (disch := omega) only [h, Gen.M.bind, Gen.M.pure, e_driverLock, e_driverAsyncWantSend, if_true, if_false, ite_true,
+      ite_false, Bool.false_eq_true]
+end SockModel.Props.C02
